@@ -248,53 +248,6 @@ def _impl_path(sess):
         cnt[0] += 1
         return cnt[0]
 
-    path = Path(mk_solver(args))
-    regs = []   # (DynamicParam, calldata index)
-    cds = []    # (ByteVec, function index)
-    fixed = {}  # raw size symbol name -> value
-    nb = 0
-    for ev in sess["script"]:
-        if ev[0] == "cd":
-            it = items[ev[1]]
-            sig = str_abi(it)
-            cd, dyn = mk_calldata(abi, FunctionInfo("C", it["name"], sig, SELECTORS[ev[1] % len(SELECTORS)]), args, nid if base is not None else None)
-            path.process_dyn_params(dyn)
-            for d in dyn:
-                regs.append((d, len(cds)))
-            cds.append((cd, ev[1]))
-            obs["events"].append(["cd", ev[1]])
-        elif ev[0] == "extend":
-            p2 = Path(mk_solver(args))
-            p2.extend_path(path)
-            path = p2
-            obs["events"].append(["extend"])
-        elif ev[0] == "branch":
-            nb += 1
-            path = path.branch(z3.Bool(f"c12_cond_{nb}"))
-            path.activate()
-            obs["events"].append(["branch"])
-        elif ev[0] == "fix":
-            free = [j for j, (d, _) in enumerate(regs) if d.size_symbol.decl().name() not in fixed]
-            if not free:
-                continue
-            j = free[ev[1] % len(free)]
-            d = regs[j][0]
-            val = d.size_choices[ev[2] % len(d.size_choices)]
-            path = path.branch(d.size_symbol == val)
-            path.activate()
-            fixed[d.size_symbol.decl().name()] = val
-            obs["events"].append(["fix", j, val])
-        elif ev[0] == "skip":
-            if base is not None:
-                for _ in range(ev[1]):
-                    nid()
-                obs["events"].append(["skip", ev[1]])
-    for d, ci in regs:
-        nm = d.size_symbol.decl().name()
-        lab, ctr = _label(nm)
-        obs["regs"].append([d.name, list(d.size_choices), lab, ctr, isinstance(d.typ, DynamicArrayType), nm, ci])
-    obs["fixed"] = fixed
-
     # ---- the real SEVM.calldataload on every word of every calldata, in the final path
     class St:
         def __init__(self, off):
@@ -331,6 +284,80 @@ def _impl_path(sess):
             new_path = ex.path.branch(cond)  # the real Path.branch
             return Ex(ex.cd, ex.st.off, new_path, new_path.pending[0] if len(new_path.pending) == 1 else "pending?")
 
+    def load(cd, off, path):
+        stack = Stack()
+        try:
+            SEVM.calldataload(Self(), Ex(cd, off, path), stack)
+            brs = []
+            for e in stack.items:
+                keeps = None
+                if e.cond is not None:
+                    # the successor path still knows the candidates of every registered calldata
+                    cand = e.path.concretization.candidates
+                    keeps = all(any(k.eq(d.size_symbol) for k in cand) for d, _ in regs)
+                brs.append([_cond(e.cond) if not isinstance(e.cond, str) else ["?", e.cond], [_describe(v) for v in e.st.pushed], e.advanced]
+                           + ([] if keeps in (None, True) else ["successor lost candidates"]))
+        except Exception as e:  # noqa: BLE001
+            brs = [["EXC", type(e).__name__, str(e)[:100]]]
+        return brs
+
+    def offset_of(cd, nm):
+        cells = _cells(cd) or []
+        return next((i for i, c in enumerate(cells) if c[0] == "s" and c[1] == nm and c[2] == 0), None)
+
+    obs["isolation"] = []
+    path = Path(mk_solver(args))
+    regs = []   # (DynamicParam, calldata index)
+    cds = []    # (ByteVec, function index)
+    fixed = {}  # raw size symbol name -> value
+    nb = 0
+    for ev in sess["script"]:
+        if ev[0] == "cd":
+            it = items[ev[1]]
+            sig = str_abi(it)
+            cd, dyn = mk_calldata(abi, FunctionInfo("C", it["name"], sig, SELECTORS[ev[1] % len(SELECTORS)]), args, nid if base is not None else None)
+            path.process_dyn_params(dyn)
+            for d in dyn:
+                regs.append((d, len(cds)))
+            cds.append((cd, ev[1]))
+            obs["events"].append(["cd", ev[1]])
+        elif ev[0] == "extend":
+            p2 = Path(mk_solver(args))
+            p2.extend_path(path)
+            path = p2
+            obs["events"].append(["extend"])
+        elif ev[0] == "branch":
+            nb += 1
+            path = path.branch(z3.Bool(f"c12_cond_{nb}"))
+            path.activate()
+            obs["events"].append(["branch"])
+        elif ev[0] == "fix":
+            free = [j for j, (d, _) in enumerate(regs) if d.size_symbol.decl().name() not in fixed]
+            if not free:
+                continue
+            j = free[ev[1] % len(free)]
+            d = regs[j][0]
+            val = d.size_choices[ev[2] % len(d.size_choices)]
+            parent = path
+            path = parent.branch(d.size_symbol == val)
+            path.activate()
+            fixed[d.size_symbol.decl().name()] = val
+            # the path branched from (its other successors continue from it) must not see the fix
+            off = offset_of(cds[regs[j][1]][0], d.size_symbol.decl().name())
+            if off is not None:
+                obs["isolation"].append([j, val, load(cds[regs[j][1]][0], off, parent)])
+            obs["events"].append(["fix", j, val])
+        elif ev[0] == "skip":
+            if base is not None:
+                for _ in range(ev[1]):
+                    nid()
+                obs["events"].append(["skip", ev[1]])
+    for d, ci in regs:
+        nm = d.size_symbol.decl().name()
+        lab, ctr = _label(nm)
+        obs["regs"].append([d.name, list(d.size_choices), lab, ctr, isinstance(d.typ, DynamicArrayType), nm, ci])
+    obs["fixed"] = fixed
+
     for cd, fi in cds:
         cells = _cells(cd)
         if cells is None:
@@ -338,19 +365,7 @@ def _impl_path(sess):
             continue
         loads = []
         for off in range(4, len(cd), 32):
-            stack = Stack()
-            try:
-                SEVM.calldataload(Self(), Ex(cd, off, path), stack)
-                brs = []
-                for e in stack.items:
-                    keeps = None
-                    if e.cond is not None:
-                        # the successor path still knows the candidates of every registered calldata
-                        cand = e.path.concretization.candidates
-                        keeps = all(any(k.eq(d.size_symbol) for k in cand) for d, _ in regs)
-                    brs.append([_cond(e.cond) if not isinstance(e.cond, str) else ["?", e.cond], [_describe(v) for v in e.st.pushed], e.advanced] + ([] if keeps in (None, True) else ["successor lost candidates"]))
-            except Exception as e:  # noqa: BLE001
-                brs = [["EXC", type(e).__name__, str(e)[:100]]]
+            brs = load(cd, off, path)
             loads.append([off, _word_kind(cells, off), brs])
         obs["cds"].append({"fun": fi, "len": len(cd), "loads": loads})
     return obs
@@ -547,6 +562,13 @@ def check_spec(sess, obs):
         for (n, cs, fi), (nm, _) in zip(want, syms):
             expected[nm] = (n, cs, fi)
         fixed = {}
+    for j, val, brs in obs.get("isolation", []):
+        d = obs["regs"][j]
+        want = [[[d[5], v], [["const", v]], 1] for v in d[1]]
+        if brs != want:
+            out.append(("failing-input", f"after one successor of a path fixed the length of {d[0]!r} to {val}, the path it branched from reads the size symbol as "
+                        f"{str(brs)[:160]} instead of branching over {d[1]} (sibling paths share their concretization)", {"kind": "calldataload-branches", "where": "sibling"}))
+            return out
     for c in obs["cds"]:
         fs = sig_string(sess["funs"][c["fun"]], c["fun"])
         if "error" in c:
